@@ -898,7 +898,7 @@ func (s *levelsController) subcompact(it y.Iterator, kr keyRange, cd compactDef,
 		}
 		go func(builder *table.Builder, fileID uint64) {
 			var err error
-			defer inflightBuilders.Done(err)
+			defer func() { inflightBuilders.Done(err) }()
 			defer builder.Close()
 
 			var tbl *table.Table
